@@ -1513,7 +1513,64 @@ fn corpus(ctx: &mut Ctx, w: &World) {
     honest_message_oracles(ctx, w, &m, &rcp, false);
 }
 
+/// passwords longer than the smallest iterated-S2K octet counts: salt ‖ password is then hashed once
+/// in full, so a wrong password that shares a long prefix with the right one must still be refused
+/// (oracle only; both container versions, every iterated count code around the password length)
+fn long_password_cases(ctx: &mut Ctx) {
+    use std::io::Read;
+    let data = b"for the holder of the right password only".to_vec();
+    for (ci, code) in [0u8, 1, 2, 16, 96].into_iter().enumerate() {
+        for n in [1016usize, 1017, 1100, 2100] {
+            for v2 in [false, true] {
+                let right: Vec<u8> = (0..n as u32).map(|i| (i as u8).wrapping_mul(7).wrapping_add(1)).collect();
+                let mut wrongs: Vec<Vec<u8>> = Vec::new();
+                let mut w = right.clone();
+                *w.last_mut().unwrap() ^= 1;
+                wrongs.push(w);
+                wrongs.push(right[..n - 1].to_vec());
+                let mut w = right.clone();
+                w.push(0);
+                wrongs.push(w);
+                let built = guarded(|| {
+                    let mut rng = rand::thread_rng();
+                    let s2k = StringToKey::new_iterated(&mut rng, HashAlgorithm::Sha256, code);
+                    if v2 {
+                        let mut b = MessageBuilder::from_bytes("", data.clone()).seipd_v2(&mut rng, SymmetricKeyAlgorithm::AES128, AeadAlgorithm::Ocb, ChunkSize::C64B);
+                        b.encrypt_with_password(&mut rng, s2k, &Password::from(&right[..])).ok()?;
+                        b.to_vec(&mut rng).ok()
+                    } else {
+                        let mut b = MessageBuilder::from_bytes("", data.clone()).seipd_v1(&mut rng, SymmetricKeyAlgorithm::AES128);
+                        b.encrypt_with_password(s2k, &Password::from(&right[..])).ok()?;
+                        b.to_vec(&mut rng).ok()
+                    }
+                });
+                let Ok(Some(msg)) = built else { continue };
+                let open = |pw: &[u8]| -> Option<Vec<u8>> {
+                    guarded(|| {
+                        let m = Message::from_bytes(&msg[..]).ok()?;
+                        let mut d = m.decrypt_with_password(&Password::from(pw)).ok()?;
+                        let mut out = Vec::new();
+                        d.read_to_end(&mut out).ok()?;
+                        Some(out)
+                    })
+                    .ok()
+                    .flatten()
+                };
+                let site = if v2 { "Message::decrypt_with_password (SKESK v6 + SEIPDv2, iterated S2K)" } else { "Message::decrypt_with_password (SKESK v4 + SEIPDv1, iterated S2K)" };
+                let input = format!("count_code={code} password_len={n} case={ci}");
+                ctx.oracle("each_recipient_alone", site, &input, open(&right).as_deref() == Some(&data[..]), "the right (long) password does not decrypt");
+                for (wi, w) in wrongs.iter().enumerate() {
+                    let r = open(w);
+                    ctx.oracle("non_recipient_errors", site, &format!("{input} wrong#{wi} (differs from the right password only beyond octet {})", n.min(w.len()) - 1), r.is_none(), &format!("a wrong password returned {:?} octets", r.map(|d| d.len())));
+                }
+                ctx.stat("long_password");
+            }
+        }
+    }
+}
+
 pub fn run(ctx: &mut Ctx) {
+    long_password_cases(ctx);
     let w = World::new(ctx);
     corpus(ctx, &w);
     ctx.stat_n("pool:keys", w.pool.len() as u64);
